@@ -525,6 +525,27 @@ def r04_7(chk, cr):
     chk.ob("R04.7", CR, q, "unique molecules are numbered by the enumerate index of the returned list", len(numbering) == 1 and
            numbering[0].loops[-1].kind == "enumerate" and numbering[0].value.key() == numbering[0].loops[-1].index.key(),
            node=numbering[0].node if numbering else None, fingerprint="numbering", found=[str(e.value) for e in numbering])
+    # the index written into a molecule is its position in the list that is kept and handed out: the list is not re-ordered, shortened or
+    # extended after the numbering, and the memo and the return value are that very list (not a sorted copy of it)
+    if len(numbering) == 1 and numbering[0].loops[-1].iter is not None:
+        lst = numbering[0].loops[-1].iter.key()
+        at = ev.events.index(numbering[0])
+        REORDER = (".sort", ".reverse", ".insert", ".pop", ".remove", ".append", ".extend", ".clear")
+        later = [e for e in ev.events[at + 1:] if e.kind == "call" and e.target is not None and e.target.key().startswith(lst + ".")
+                 and e.target.key()[len(lst):] in REORDER]
+        later += [e for e in ev.events[at + 1:] if e.kind in ("delete", "store", "aug") and e.target is not None and e.target.key().startswith(lst + "[")]
+        handed = [e for e in ev.events if e.kind == "return" and e.value is not None and not any(pol and "hasattr" in c.key() for c, pol in e.guards)]
+        handed_ok = bool(handed) and all(e.value.key() == lst for e in handed)
+        memo = [e for e in ev.events if e.kind == "call" and call_name(e.value.as_atom() or ()) == "setattr" and e.extra.get("args")
+                and len(e.extra["args"]) == 3 and "_symmetry_unique_molecules" in e.extra["args"][1].key()]
+        memo += [e for e in ev.events if e.kind == "store" and e.target.key() == "self._symmetry_unique_molecules"]
+        memo_ok = all((e.extra["args"][2] if e.kind == "call" else e.value).key() == lst for e in memo)
+        chk.ob("R04.7", CR, q, "the numbered list is the list that is memoised and returned, and it is not re-ordered or resized after the numbering "
+               "(asym_mol_idx stays the position of the molecule in symmetry_unique_molecules())", not later and handed_ok and memo_ok,
+               node=(later[0].node if later else numbering[0].node), fingerprint="numbering-stable",
+               expected=f"no sort/reverse/insert/pop/remove/append on {lst} after the numbering loop; return {lst}",
+               found=[str(e.value)[:100] for e in later] or [str(e.value)[:80] for e in handed if e.value.key() != lst]
+               or [str(e.value)[:80] for e in memo])
     for e in stores:
         if e in numbering:
             continue
